@@ -1,0 +1,72 @@
+//go:build verif
+
+package abci
+
+import (
+	"fmt"
+
+	"github.com/oasisprotocol/oasis-core/go/storage/mkvs"
+)
+
+// Exports for the verification harness (/verif, property C08). Add-only, compiled only with
+// the `verif` build tag. Read-only: the hooks iterate trees, they never write or commit.
+
+// VerifWorkingState returns every key/value pair of the working proposal tree, i.e. the overlay
+// DeliverTx / BeginBlock / EndBlock contexts execute on (state.go: NewContext, proposal.tree),
+// in key order. Nothing is committed (unlike workingStateRoot, which merges the overlay).
+func (a *ApplicationServer) VerifWorkingState() (keys, values [][]byte, err error) {
+	s := a.mux.state
+	if s.proposal == nil || s.proposal.tree == nil {
+		return nil, nil, fmt.Errorf("verif: no working proposal")
+	}
+	it := s.proposal.tree.NewIterator(s.ctx)
+	defer it.Close()
+	for it.Rewind(); it.Valid(); it.Next() {
+		keys = append(keys, append([]byte{}, it.Key()...))
+		values = append(values, append([]byte{}, it.Value()...))
+	}
+	if err = it.Err(); err != nil {
+		return nil, nil, err
+	}
+	return keys, values, nil
+}
+
+// VerifCheckState returns every key/value pair of the CheckTx tree (state.go: checkState), the
+// last committed state with the modifications of checked transactions applied on top.
+func (a *ApplicationServer) VerifCheckState() (keys, values [][]byte, err error) {
+	s := a.mux.state
+	s.blockLock.RLock()
+	defer s.blockLock.RUnlock()
+	if s.checkState == nil {
+		return nil, nil, fmt.Errorf("verif: no check state")
+	}
+	it := s.checkState.NewIterator(s.ctx)
+	defer it.Close()
+	for it.Rewind(); it.Valid(); it.Next() {
+		keys = append(keys, append([]byte{}, it.Key()...))
+		values = append(values, append([]byte{}, it.Value()...))
+	}
+	if err = it.Err(); err != nil {
+		return nil, nil, err
+	}
+	return keys, values, nil
+}
+
+// VerifBlockGasUsed returns the gas used so far in the block in progress (block gas accountant).
+func (a *ApplicationServer) VerifBlockGasUsed() uint64 {
+	bc := a.mux.state.blockCtx
+	if bc == nil || bc.GasAccountant == nil {
+		return 0
+	}
+	return uint64(bc.GasAccountant.GasUsed())
+}
+
+// VerifWorkingTree returns the working proposal tree for READ access (building the next
+// transaction against the state of the block in progress). Callers must not write to it.
+func (a *ApplicationServer) VerifWorkingTree() mkvs.ImmutableKeyValueTree {
+	s := a.mux.state
+	if s.proposal == nil {
+		return nil
+	}
+	return s.proposal.tree
+}
